@@ -41,7 +41,7 @@ Init == l = 1 /\ bad = {}
 Step == /\ l <= Len(Trace) /\ l' = l + 1
         /\ LET fl == Failed(Trace[l]) IN
              /\ bad' = IF fl = {} THEN bad ELSE bad \cup {l}
-             /\ (fl = {} \/ PrintT(<<"VERIF-WHY", l, fl>>))
+             /\ (IF fl = {} THEN TRUE ELSE PrintT(<<"VERIF-WHY", l, fl>>))
 Report == /\ l = Len(Trace) + 1
           /\ PrintT(<<"VERIF-CONSUMED", l - 1>>) /\ PrintT(<<"VERIF-REJECTED", bad>>)
           /\ l' = l + 1 /\ UNCHANGED bad
